@@ -194,5 +194,5 @@ func vh_C14_conflicts_Q() {
 
 // thorough tier
 func vh_C15_sound_complete_T() { vhC15SoundComplete(4, 2, false, false) }
-func vh_C15_slashes_T()        { vhC15SoundComplete(3, 2, true, true) }
+func vh_C15_slashes_T()        { vhC15SoundComplete(3, 1, true, true) }
 func vh_C15_permutation_T()    { vhC15Permutation(3, 2) }
